@@ -97,6 +97,29 @@ def _simp(e):
     return z3.simplify(e)
 
 
+def _num_ite(e):
+    """(cond, a, b) if e is If(cond, a, b) with numeral branches (possibly under ToReal), else None"""
+    if z3.is_app(e) and e.decl().kind() == z3.Z3_OP_TO_REAL:
+        e = z3.simplify(e.arg(0))
+    if z3.is_app(e) and e.decl().kind() == z3.Z3_OP_ITE:
+        c, a, b = e.children()
+        if (z3.is_rational_value(a) or z3.is_int_value(a)) and (z3.is_rational_value(b) or z3.is_int_value(b)):
+            ra = z3.ToReal(a) if z3.is_int(a) else a
+            rb = z3.ToReal(b) if z3.is_int(b) else b
+            return c, z3.simplify(ra), z3.simplify(rb)
+    return None
+
+
+def lin_mul(x, y):
+    """x*y for z3 reals, keeping the product linear when one side is an indicator-like If with numeral branches"""
+    for p, q in ((x, y), (y, x)):
+        t = _num_ite(z3.simplify(p))
+        if t is not None:
+            c, a, b = t
+            return z3.If(c, a * q, b * q)
+    return x * y
+
+
 def _bsimp(x):
     if isinstance(x, bool):
         return x
@@ -190,7 +213,7 @@ class EV:
             return NotImplemented
         b = EV.of(b)
         if a.inf is False and b.inf is False:
-            return EV(_simp(a.v * b.v), False, Or(a.nan, b.nan))
+            return EV(_simp(lin_mul(a.v, b.v)), False, Or(a.nan, b.nan))
         nan = Or(a.nan, b.nan, And(a.inf, b.iszero()), And(b.inf, a.iszero()))
         inf = And(Not(nan), Or(a.inf, b.inf))
         sgn = Ite(_b(a.v > 0) == _b(b.v > 0), ONE, MONE)
